@@ -15,6 +15,7 @@ inductive CaseState where
   | skip                                   -- after a mismatch: ignore the rest of the case
   | window (w : Window Nat)
   | action
+  | candle
   | methodNew (name : String) (params : List String)
   | method (name : String) (params : List String) (st : MState) (ctx : Ctx) (prevLeaves : List String)
       (lstepOnly : Bool) (spec : SpecSt)
@@ -174,10 +175,11 @@ def step (d : Drv) (line : String) : Drv × Option String :=
     let cs := match comp, _params with
       | "window", _ => CaseState.window Window.empty
       | "action", _ => CaseState.action
+      | "candle", _ => CaseState.candle
       | "method", name :: ps => CaseState.methodNew name ps
       | _, _ => CaseState.idle
     ({ d with cs := cs, caseId := id, comp := comp, sub := _params.headD "", cases := d.cases + 1, caseBad := false },
-      if comp == "window" || comp == "method" || comp == "action" then none else some s!"UNKNOWN-COMPONENT case={id} comp={comp}")
+      if comp == "window" || comp == "method" || comp == "action" || comp == "candle" then none else some s!"UNKNOWN-COMPONENT case={id} comp={comp}")
   | ["E"] => ({ d with cs := .idle }, none)
   | _ =>
     match d.cs with
@@ -185,6 +187,20 @@ def step (d : Drv) (line : String) : Drv × Option String :=
     | .skip => (d, none)
     | .methodNew _ _ => stepMethod d line
     | .method _ _ _ _ _ _ _ => stepMethod d line
+    | .candle =>
+      let parts := (line.splitOn ";").map words
+      let bad : Option String := match op with
+        | "ohlcv" :: ins => candleOhlcv ins (parts.getD 1 []) (parts.getD 2 [])
+        | "add" :: ins =>
+          if parts.getD 1 [] == ["P"] then some "Candle + panicked"
+          else candleAdd ins (parts.getD 1 []) (parts.getD 2 []) (parts.getD 3 [])
+        | _ => candleText d.P op res
+      let d := { d with ops := d.ops + 1 }
+      match bad with
+      | none => (d, none)
+      | some m =>
+        let d := { d with mism := d.mism + 1, badCases := if d.caseBad then d.badCases else d.badCases + 1, caseBad := true }
+        (d, some s!"MISMATCH case={d.caseId} comp={d.comp} sub={op.headD ""} class=exact line={d.lineNo} op=\"{(unwords op).take 200}\" what=\"{m}\"")
     | .action =>
       let rust := unwords res
       let (ok, model) := actionAgree op rust
